@@ -81,6 +81,19 @@ CHECKS["C01"] = dict(
          "StateSpace::interpolate/distance (C06/C07).",
     technique="TLA+ configuration model enumerated by TLC + TLC trace validation of recorded solve reports against a contract spec",
     design="3/C01")
+CHECKS["C03"] = dict(
+    level="model_checking",
+    text="PlannerLifecycle.tla models the planner life cycle (bind definition, change query, setup, solve(k), clear, "
+         "clearQuery, getPlannerData, destroy) with the documented protocol; TLC checks NoStaleQuery and exports the state "
+         "graph; histories are walks through it plus the k-sweep solve(k); solve(k2) with the termination condition first "
+         "firing at every evaluation index k = 0,1,2,...; they are executed on all 41 planners over an allocation-counting "
+         "state space; each recorded execution is replayed through the same TLA+ actions and every report is judged by "
+         "PlannerLifecycleTrace: status truthful, nothing empty/half-built, path facts of C01 for every added solution, return "
+         "within k+B evaluations, nothing lost or worse, fresh planner forgets old queries, no leak / double free, no crash/hang.",
+    note="Bound B after the k-th evaluation: 24 (400 for multi-threaded planners); k-sweep for single-threaded planners only; "
+         "2-D worlds; leaks observed through a counting R^2 space, crashes/hangs through process-level watchdogs.",
+    technique="TLA+ life-cycle spec + TLC; graph-guided history execution; TLC trace validation through the spec's own actions",
+    design="3/C03")
 CHECKS["C04"] = dict(
     level="model_checking",
     text="Ranking: SolutionSet.tla transcribes PlannerSolution::operator<; TLC proves it a strict weak order equal to the "
@@ -105,6 +118,18 @@ CHECKS["C13"] = dict(
          "Replay bounded to boxes of <= 12 coordinates; traces reach ~36 live cells; 3-D in the thorough tier.",
     technique="TLA+ spec + TLC; state-graph scenario replay; TLC trace validation",
     design="3/C13")
+CHECKS["C17"] = dict(
+    level="model_checking",
+    text="PathOps.tla transcribes subdivide / interpolate() / interpolate(count) on integer paths; TLC checks the densification "
+         "contract on every path of <= 4 (5) segments x counts 0..14 (16) and each of the 162k (633k) cases is replayed exactly on "
+         "PathGeometric. Every simplifier / hybridization routine is run on thousands of valid input paths (planner outputs, "
+         "synthetic zig-zags with repeated states, non-metric space, field objective, interrupted simplify) in forked, "
+         "individually seeded chains; each call's before/after report (endpoints, oracle validity, length, cost, check()) is "
+         "validated by TLC against SimplifierContract.tla.",
+    note="Validity oracle with clearance margin (library predicate clearance >= 2r, oracle >= r/2) so re-discretisation cannot "
+         "alarm; 2-D worlds; 'introduces only validated motions' observed as validity of the result given a valid input.",
+    technique="TLA+ spec + TLC exhaustive case enumeration with exact replay; TLC trace validation of routine reports",
+    design="3/C17")
 CHECKS["C19"] = dict(
     level="model_checking",
     text="Protocol model of the motion counters at the code's atomicity checked by TLC over all interleavings (atomic form "
